@@ -8,6 +8,7 @@ import GoZero.C19.Lua
 import GoZero.C19.Proofs
 import GoZero.C19.Ids
 import GoZero.C19.Outcomes
+import GoZero.C19.CmdTrace
 namespace GoZero.C19.Tie
 open GoZero.C19
 open GoZero.C19.Lua
@@ -393,5 +394,39 @@ theorem tie_initBody : initBody = ["rand.NewSource(time.Now().UnixNano())"] := b
 
 example : (goHanded (.reply (.bulk "ok"))).app acquireDecide = (false, false) ∧
     (goHanded .nilNoErr).app releaseDecide = (false, false) := by decide
+
+/-! ### Round 5c: the table of calls of redislock.go -/
+
+def rowOf (t : String × List (Bool × String) × Nat × String × List String) : Row :=
+  ⟨t.1, t.2.1, t.2.2.1, t.2.2.2.1, t.2.2.2.2⟩
+
+/-- **every call of redislock.go that is not pure — per function and per branch — is what the model was written
+against**: one unconditional `rl.store.ScriptRunCtx(ctx, lockScript | delScript, []string{rl.key}, …)` in
+AcquireCtx / ReleaseCtx, the wrappers delegate, no call on `rl.store` under any condition, no helper method -/
+theorem tie_callTable : callTable.map rowOf = realRows := by decide
+
+/-- **the command-trace theorems speak about the table of the tree**: interpreted from either entry point it is `realG` -/
+theorem tie_command_trace (cfg : Nat → LockCfg) (call : Call) (wrapper : Bool) :
+    progOfRows (callTable.map rowOf) wrapper (cfg (callInst call)) call = some (realG cfg call) := by
+  rw [tie_callTable]; cases call <;> cases wrapper <;> rfl
+
+/-- Go's `select` with one receive case and a `default`: the receive case is taken iff it is ready -/
+def gateOfSelect (sel : List (String × String)) (ctxDone brkOpen : Bool) : Option GateOut :=
+  match sel with
+  | [(c1, b1), (c2, b2)] =>
+    if c1 = "<-ctx.Done()" ∧ b1 = "return ctx.Err()" ∧ c2 = "default" ∧
+        b2 = "return cb.DoWithAcceptable(req, acceptable)" then
+      some (if ctxDone then .ctxErr else if brkOpen then .unavailable else .pass)
+    else none
+  | _ => none
+
+/-- **go-zero's breaker hook is the model's `breakerGate`**: every command goes through
+`h.brk.DoWithAcceptableCtx(ctx, next…, acceptable)` (script commands are not in `ignoreCmds`' bypass branch's way:
+the bypass only skips the breaker), whose body is the select "context done → its error, else the breaker decides" -/
+theorem tie_breakerGate (ctxDone brkOpen : Bool) :
+    gateOfSelect breakerSelect ctxDone brkOpen = some (breakerGate ctxDone brkOpen) ∧
+    breakerProcessHook = ["if _, ok := ignoreCmds[cmd.Name()]; ok {", "return next(ctx, cmd)", "}",
+      "return h.brk.DoWithAcceptableCtx(ctx, func() error { return next(ctx, cmd) }, acceptable)"] := by
+  cases ctxDone <;> cases brkOpen <;> decide
 
 end GoZero.C19.Tie
